@@ -153,6 +153,11 @@ Definition check_event (U : universe) (c : tcase) (m : mstate) (sm : sstate) (o 
        (eqb_on (s_tip sm) tip, 900%nat);
        (eqb_on lc (io_lock io), 11%nat);
        (match o with OLock (LockOk _) => eqb_on le (io_expiry io) | _ => true end, 12%nat);
+       (* 25: the returned expiry denotes the granted lease: the instant asked for
+          (now + dur) or the stored, second-truncated one (C12 uses 25, not 12) *)
+       (match o with
+        | OLock (LockOk _) => eqb_on le (io_expiry io) || eqb_on (trunc_sec le) (io_expiry io)
+        | _ => true end, 25%nat);
        (eqb_on (m_bal U c m tip) (io_bal io), 13%nat);
        (eqb_on (m_utxos U m) (io_utxos io), 14%nat);
        (eqb_on (m_watch U m) (io_watch io), 15%nat);
